@@ -35,6 +35,9 @@ var keyHex = []string{
 // commit phase wait: the script driven modes have no clock (1 ms); the live mode keeps the default
 var commitTimeoutMS = 1
 
+// live mode: the committee was last updated at the current root height and proposals are validated against it
+var strictBuildHeight = false
+
 // sent is one message an honest node handed to the transport
 type sent struct {
 	from   int
@@ -88,6 +91,9 @@ func (c *ctrl) ProduceProposal(be *bft.ByzantineEvidence, vdf *crypto.VDF) (uint
 	return c.rootH, blk, c.w.results, nil
 }
 func (c *ctrl) ValidateProposal(rc uint64, qc *lib.QuorumCertificate, ev *bft.ByzantineEvidence) (*lib.BlockResult, lib.ErrorI) {
+	if strictBuildHeight && rc != c.rootH { // live mode: the proposal must have been built at the root height the replicas know
+		return nil, lib.ErrInvalidRCBuildHeight()
+	}
 	return &lib.BlockResult{}, nil
 }
 func (c *ctrl) LoadCertificate(h uint64) (*lib.QuorumCertificate, lib.ErrorI) {
@@ -168,6 +174,9 @@ func (c *ctrl) LoadCommittee(rc, rh uint64) (lib.ValidatorSet, lib.ErrorI) {
 	return c.w.vs, nil
 }
 func (c *ctrl) LoadCommitteeData() (*lib.CommitteeData, lib.ErrorI) {
+	if strictBuildHeight {
+		return &lib.CommitteeData{ChainId: chainID, LastRootHeightUpdated: c.rootH}, nil
+	}
 	return &lib.CommitteeData{ChainId: chainID}, nil
 }
 func (c *ctrl) LoadLastProposers(rh uint64) (*lib.Proposers, lib.ErrorI) {
@@ -247,7 +256,7 @@ func newWorld(names []string, byz map[string]bool, power []uint64, valueTags []s
 			return nil, e
 		}
 		b.ValidatorSet = w.vs
-		b.CommitteeData = &lib.CommitteeData{ChainId: chainID}
+		b.CommitteeData, _ = c.LoadCommitteeData()
 		c.b = b
 		b.NewHeight(false)
 	}
